@@ -105,6 +105,160 @@ def two_package_project():
                             ctl("BillingCtl", "ctlb", 3)]}
 
 
+# ------------------------------------------------------------------ custom error types
+#
+# A controller method returns `error`, `(T, error)` or the same with a CUSTOM error: a struct that embeds
+# `error`, by value or by address (method key "errtype": "error" | "<Name>" | "*<Name>").  The custom error
+# types are declared in the controller's own package.  project.render_method only writes `error`, so the
+# signature and the returns of such a method are rewritten after rendering (render_custom_errors, the
+# `prepare` hook of servers.build_servers).
+
+LOCAL_ERRORS = ("Failure", "Problem")
+LOCAL_ERRORS_GO = """package %s
+
+// A failure payload: a custom error (embeds error)
+type Failure struct {
+	error
+	// A machine readable code
+	Code int `json:"code"`
+}
+
+// Another custom error
+type Problem struct {
+	error
+	// A human readable reason
+	Reason string `json:"reason"`
+}
+"""
+
+
+def errtype_of(m):
+    return m.get("errtype") or "error"
+
+
+def render_custom_errors(h, k, root):
+    """prepare hook: rewrite the rendered methods whose errtype is not the universe `error`."""
+    p = h.projects[k]
+    for pkg in sorted(set(c["pkg"] for c in p["controllers"])):
+        d = os.path.join(root, pkg)
+        todo = [(c, m) for c in p["controllers"] if c["pkg"] == pkg for m in c["methods"] if errtype_of(m) != "error"]
+        if not todo:
+            continue
+        with open(os.path.join(d, "zz_local_errors.go"), "w") as f:
+            f.write(LOCAL_ERRORS_GO % pkg)
+        for fn in sorted(os.listdir(d)):
+            if not fn.endswith(".go"):
+                continue
+            path = os.path.join(d, fn)
+            lines = open(path, encoding="utf-8").read().split("\n")
+            changed = False
+            for (c, m) in todo:
+                head = "func (c *%s) %s(" % (c["name"], m["name"])
+                et = errtype_of(m)
+                base = et.lstrip("*")
+                for i, ln in enumerate(lines):
+                    if not ln.startswith(head):
+                        continue
+                    if ln.endswith(", error) {"):
+                        lines[i] = ln[:-len("error) {")] + et + ") {"
+                    elif ln.endswith(") error {"):
+                        lines[i] = ln[:-len("error {")] + et + " {"
+                    else:
+                        raise RuntimeError("unexpected method header: " + ln)
+                    j = i + 1
+                    while lines[j] != "}":
+                        b = lines[j]
+                        b = b.replace('errors.New("boom")', '%s%s{error: errors.New("boom")}' % (
+                            "&" if et.startswith("*") else "", base))
+                        if not et.startswith("*"):
+                            b = re.sub(r"^(\s*return (?:.*, )?)nil$", lambda mm: mm.group(1) + base + "{}", b)
+                        lines[j] = b
+                        j += 1
+                    changed = True
+            if changed:
+                with open(path, "w", encoding="utf-8") as f:
+                    f.write("\n".join(lines))
+
+
+def custom_error_projects():
+    """Deliberate projects over the return shapes  E | (T, E) | (T, *E) | *E  with the payload type T declared in
+    the error's package (ctl.Dto next to ctl.Failure) or elsewhere (types.Item, string), and such that a given
+    error type is returned in ONE way per project (another route returning the same error differently would
+    register the same `Response<serial><Type>` alias)."""
+    def ctl(name, pkg, ms):
+        return {"name": name, "pkg": pkg, "tag": "T", "route": "/" + name.lower(), "security": [], "descr": "",
+                "methods": ms}
+
+    def em(name, verb, route, params, ret, et):
+        m = meth(name, verb, route, params, ret)
+        m["errtype"] = et
+        return m
+    a = {"config": cfg(), "types": ["Item"], "controllers": [
+        ctl("OrdersCtl", "ctl", [em("GetOrder", "GET", "/o/{id}", [prm("id", "path", "string")], "Dto", "Failure"),
+                                 meth("ListOrders", "GET", "/o", [prm("limit", "query", "int", pointer=True)], "Dto")]),
+        ctl("UsersCtl", "ctlb", [em("GetUser", "GET", "/u/{id}", [prm("id", "path", "Tag")], "*Dto", "Failure"),
+                                 em("PutUser", "PUT", "/u", [prm("body", "body", "Dto")], "Dto", "*Problem")])]}
+    b = {"config": cfg(), "types": ["Item"], "controllers": [
+        ctl("MixedCtl", "ctl", [em("A", "GET", "/a", [], "Item", "Failure"),
+                                em("B", "POST", "/b", [prm("it", "body", "Item")], "string", "Failure"),
+                                em("C", "DELETE", "/c", [], None, "Problem"),
+                                em("D", "GET", "/d", [prm("k", "query", "ItemKind")], "Dto", "Problem")]),
+        ctl("PtrCtl", "ctlb", [em("E", "GET", "/e", [], None, "*Failure"),
+                               em("F", "GET", "/f", [], "Dto", "*Failure"),
+                               em("G", "GET", "/g", [], "*Item", "Problem")])]}
+    c = {"config": cfg(), "types": ["Item"], "controllers": [
+        ctl("ListCtl", "ctl", [em("H", "GET", "/h", [], "[]Dto", "Failure"),
+                               meth("I", "GET", "/i", [prm("xs", "query", "Tag", slice=True)], "[]Item"),
+                               em("J", "GET", "/j", [], "[]Item", "*Problem")])]}
+    return [("custom-error-same-package", a, None), ("custom-error-mixed", b, None), ("custom-error-slices", c, None)]
+
+
+def borderline_projects(rng, n_random):
+    """Projects the validators of HEAD refuse (a slice outside query/body, a pointer in the path, two bodies, a
+    payload mixed with form fields, an 'error' that is no error ...).  C09 has no opinion on whether such a project
+    is accepted; it says: refused => no file written, accepted => the file compiles.  So the expectation is None and
+    prop_C09 decides on whatever gleece does with them."""
+    out = []
+
+    def one(label, m, errtype=None):
+        if errtype:
+            m["errtype"] = errtype
+        out.append(("borderline:" + label, one_route_project(label, m), None))
+    for loc in ("form", "header", "path"):
+        for t in ("string", "int", "ItemKind", "ItemId"):
+            if loc == "header" and t in ("int", "ItemId"):
+                continue
+            if loc == "path":
+                if t != "string":
+                    continue
+                one("slice-path-%s" % t, meth("M0", "GET", "/a/{xs}", [prm("xs", "path", t, slice=True)], "string"))
+            else:
+                one("slice-%s-%s" % (loc, t), meth("M0", "POST", "/a", [
+                    prm("title", loc, "string"), prm("xs", loc, t, slice=True, alias="x"),
+                    prm("ns", loc, "int", slice=True, validator="required")], "Item"))
+    one("pointer-slice-query", meth("M0", "GET", "/a", [prm("xs", "query", "string", slice=True, pointer=True)], "string"))
+    one("pointer-path", meth("M0", "GET", "/a/{v}", [prm("v", "path", "string", pointer=True)], "string"))
+    one("two-bodies", meth("M0", "POST", "/a", [prm("a", "body", "Item"), prm("b", "body", "Item")], "string"))
+    one("body-and-form", meth("M0", "POST", "/a", [prm("a", "body", "Item"), prm("f", "form", "string")], "string"))
+    one("struct-in-query", meth("M0", "GET", "/a", [prm("it", "query", "Item")], "string"))
+    one("struct-in-form", meth("M0", "POST", "/a", [prm("it", "form", "Dto")], "string"))
+    one("primitive-body", meth("M0", "POST", "/a", [prm("n", "body", "int")], "string"))
+    one("slice-body", meth("M0", "POST", "/a", [prm("its", "body", "Item", slice=True)], "string"))
+    one("error-type-is-no-error", meth("M0", "GET", "/a", [], "string"), errtype="Dto")
+    # the same kind of edit on seeded random projects: one non-body parameter becomes a slice where it stands
+    opts = {"security": True, "params": True, "multipkg": True, "multifile": True, "enums": True}
+    for i in range(n_random):
+        p = P.gen_project(rng, opts)
+        cands = [x for c in p["controllers"] for m in c["methods"] for x in m["params"]
+                 if not x["ctx"] and x["loc"] in ("form", "header", "path")]
+        if not cands:
+            continue
+        x = rng.choice(cands)
+        x["slice"], x["pointer"] = True, False
+        out.append(("borderline:random-slice-%s" % x["loc"], p, None))
+    return out
+
+
 def deliberate_projects():
     """(label, project, expectation) - expectation 'reject' means gleece must refuse the project."""
     out = []
@@ -117,6 +271,7 @@ def deliberate_projects():
     out.append(("controller-named-RequestAuth", one_route_project(
         "controller-named-RequestAuth", meth("M0", "GET", "/a", [prm("k", "query", "ItemKind")], "string"),
         ctrl="RequestAuth"), None))
+    out += custom_error_projects()
     return out
 
 
@@ -148,6 +303,16 @@ def mutate_types(rng, p):
                         x["validator"] = None
             if m["ret"] in ("Item", "*Item") and rng.random() < 0.4:
                 m["ret"] = m["ret"].replace("Item", "Dto")
+    # custom error types: per controller one way of returning each error type (by value / by address)
+    for c in p["controllers"]:
+        if rng.random() < 0.5:
+            continue
+        style = {e: rng.choice(["", "*"]) + e for e in LOCAL_ERRORS}
+        for m in c["methods"]:
+            if rng.random() < 0.6:
+                m["errtype"] = style[rng.choice(LOCAL_ERRORS)]
+                if m["ret"] in ("Item", "*Item", "string") and rng.random() < 0.5:
+                    m["ret"] = "*Dto" if m["ret"].startswith("*") else "Dto"
     return p
 
 
@@ -157,7 +322,7 @@ def type_pkg(t, modpath, ctrl_pkg):
     base = t.lstrip("*[]")
     if base in ("Item", "ItemKind", "ItemId") or base in P.ENUMS:
         return modpath + "/types"
-    if base in servers.LOCAL_TYPES:
+    if base in servers.LOCAL_TYPES or base in LOCAL_ERRORS:
         return modpath + "/" + ctrl_pkg      # declared in the controller's own package
     if base == "context.Context":
         return "context"
@@ -178,7 +343,8 @@ def model_controllers(p, modpath):
             resps = []
             if m["ret"]:
                 resps.append((m["ret"].lstrip("*"), type_pkg(m["ret"], modpath, c["pkg"]), m["ret"].startswith("*")))
-            resps.append(("error", "", False))
+            et = errtype_of(m)
+            resps.append((et.lstrip("*"), type_pkg(et, modpath, c["pkg"]), et.startswith("*")))
             routes.append((params, resps))
         out.append((c["name"], modpath + "/" + c["pkg"], routes))
     return out
@@ -189,18 +355,27 @@ def infer_serials(ctrls, observed):
     observed: list of (path, alias).  Every parameter (name n, type T in package P) must appear as
     `Param<serial T>n "P"`, so the candidates of T are the digit strings d such that Param<d><n> is
     imported from P for *every* parameter name n of type T; remaining ambiguity (a name shared by two
-    types) is resolved by elimination.  Returns (table {(type name, pkg): digits}, error or None)."""
+    types) is resolved by elimination.  A custom error type E returned by value must in addition appear as
+    `Response<serial E>E "P"` (the only response alias the handlers refer to).  A type without any candidate
+    (an alias the model expects is missing) is left out of the table and reported.
+    Returns (table {(type name, pkg): digits}, error or None)."""
     seen = {}
     for (path, alias) in observed:
-        m = re.match(r"^Param(\d+)(\D.*)$", alias)
+        m = re.match(r"^(Param|Response)(\d+)(\D.*)$", alias)
         if m:
-            seen.setdefault((path, m.group(2)), set()).add(m.group(1))
+            seen.setdefault((path, (m.group(1), m.group(3))), set()).add(m.group(2))
     names = {}
     for (_, _, routes) in ctrls:
-        for (params, _) in routes:
+        for (params, resps) in routes:
             for (pn, tn, pk) in params:
                 if pk:
-                    names.setdefault((tn, pk), set()).add(pn)
+                    names.setdefault((tn, pk), set()).add(("Param", pn))
+            # the alias of a custom by-value error (last return value) is referred to by the handler
+            # (`emptyErr := Response<serial T>T.T{}`), so it survives imports.Process
+            if resps:
+                (tn, pk, by_addr) = resps[-1]
+                if pk and not by_addr and tn != "error":
+                    names.setdefault((tn, pk), set()).add(("Response", tn))
     cand = {}
     for key, ns in names.items():
         c = None
@@ -221,7 +396,8 @@ def infer_serials(ctrls, observed):
                 progress = True
     # what is left is symmetric (e.g. two types whose only parameters share one name): any injective
     # choice yields the same alias set; pick the first one found by backtracking
-    rest_keys = sorted(k for k in cand if k not in flat)
+    rest_keys = sorted(k for k in cand if k not in flat and cand[k])
+    missing = sorted(k for k in cand if not cand[k])
 
     def search(i, used, acc):
         if i == len(rest_keys):
@@ -239,6 +415,8 @@ def infer_serials(ctrls, observed):
             str(k): sorted(cand[k]) for k in rest_keys}
     else:
         flat.update(sol)
+    if missing and err is None:
+        err = "no alias `Param<d><name>` / `Response<d><type>` common to every use of %s" % [str(k) for k in missing]
     if len(set(flat.values())) != len(flat):
         err = "serial not injective: %s" % flat
     return flat, err
@@ -253,6 +431,10 @@ def py_used_imports(ctrls, serial):
             for (pn, tn, pk) in params:
                 if pk:
                     pairs.add((pk, "Param" + serial.get((tn, pk), "0") + pn))
+            if resps:
+                (tn, pk, by_addr) = resps[-1]
+                if pk and not by_addr and tn != "error":
+                    pairs.add((pk, "Response" + serial.get((tn, pk), "0") + tn))
     return sorted(pairs, key=lambda x: (x[0].encode(), x[1].encode()))
 
 
@@ -367,7 +549,8 @@ def shrink_failing(c):
     import speccheck
 
     def pred(p):
-        h = servers.build_servers(PROP + "_shrink", [p], engines=[c["engine"]], flags=[c["flags"]])
+        h = servers.build_servers(PROP + "_shrink", [p], engines=[c["engine"]], flags=[c["flags"]],
+                                  prepare=render_custom_errors)
         try:
             g = h.generation[0][c["engine"]]
             return g["exit"] == 0 and h.compiles[0][c["engine"]] is not True
@@ -529,12 +712,15 @@ def main():
             combos = [ALL_COMBOS[0]] + rng.sample(ALL_COMBOS[1:], 2 if a.tier == "quick" else 3)
             for fl in combos:
                 instances.append(("random", p, fl, None))
+        for (label, p, exp) in borderline_projects(rng, 3 if a.tier == "quick" else 30):
+            instances.append((label, p, rng.choice(ALL_COMBOS), exp))
 
     cases, timings = [], []
     BATCH = 32
     for lo in range(0, len(instances), BATCH):
         chunk = instances[lo:lo + BATCH]
-        h = servers.build_servers(PROP, [it[1] for it in chunk], flags=[it[2] for it in chunk])
+        h = servers.build_servers(PROP, [it[1] for it in chunk], flags=[it[2] for it in chunk],
+                                  prepare=render_custom_errors)
         timings.append(h.timings)
         facts = implrun("gofile", [{"path": h.routes_path(k, e)} for k in range(len(chunk)) for e in ENGINES])
         j = 0
@@ -650,7 +836,12 @@ def main():
                 "(string, ints, bool, float, enum, alias, slices, body, context) x pointer x validator, seeded random "
                 "projects (project.gen_project + enum/alias mutation, multi-file, two packages) under three flag sets "
                 "each, and deliberate probes (quote in a scope string, two rejected projects, a controller named like "
-                "a generated identifier). distinct_nontrivial = distinct (project, flags, engine) whose file parsed and "
+                "a generated identifier, custom error types returned by value / by address next to payload types of "
+                "the same or another package), and borderline projects the validators are expected to refuse (slice "
+                "typed form/header/path parameters, pointer path parameter, two bodies, body with form fields, struct "
+                "in query/form, an error type that embeds no error; also one such edit on seeded random projects) for "
+                "which either outcome is admitted: refused and no file written, or accepted and the file compiles. "
+                "distinct_nontrivial = distinct (project, flags, engine) whose file parsed and "
                 "compiled and whose project has at least one route",
         "samples": [{"label": sample["label"], "flags": sample["flags"], "engine": sample["engine"],
                      "project": sample["project"], "generation_exit": sample["gen_exit"],
@@ -670,6 +861,15 @@ def main():
             "labels": {lb: sum(1 for c in cases if c["label"] == lb) for lb in sorted(set(c["label"] for c in cases))},
             "flag_sets": sorted(set(json.dumps(c["flags"], sort_keys=True) for c in cases)),
             "routes": sum(len(cc["methods"]) for it in instances for cc in it[1]["controllers"]),
+            "custom_error_routes": {
+                kind: sum(1 for it in instances for cc in it[1]["controllers"] for m in cc["methods"] if sel(m))
+                for kind, sel in (("by_value", lambda m: errtype_of(m) != "error" and not errtype_of(m).startswith("*")),
+                                  ("by_address", lambda m: errtype_of(m).startswith("*")))},
+            # projects HEAD's validators are expected to refuse: what gleece did with them, per engine run
+            "borderline": {lb: {"refused": sum(1 for c in cases if c["label"] == lb and not c["gen_ok"]),
+                                "accepted_and_compiled": sum(1 for c in cases if c["label"] == lb and c["gen_ok"]
+                                                             and c["file"] and c["file"]["compiles"])}
+                           for lb in sorted(set(c["label"] for c in cases)) if lb.startswith("borderline:")},
         },
         "timings": timings,
         "inprocess_double_generation": {k: v for k, v in inproc.items() if k != "problems"},
